@@ -80,16 +80,17 @@ namespace awkward {
 
   void
   RecordBuilder::clear() {
-    contents_.clear();
-    keys_.clear();
-    pointers_.clear();
-    name_ = "";
-    nameptr_ = nullptr;
-    length_ = -1;
+    // all data are removed, the type knowledge (record name, field names and the
+    // builders of the fields) is kept; a builder that never began stays fresh
+    for (auto x : contents_) {
+      x.get()->clear();
+    }
+    if (length_ != -1) {
+      length_ = 0;
+    }
     begun_ = false;
     nextindex_ = -1;
     nexttotry_ = 0;
-    keys_size_ = 0;
   }
 
   const ContentPtr
